@@ -141,10 +141,10 @@ def preInline (cx : RCtx) (t : Tree) : Bytes × Bool :=
       | none => slice cx.src t
       | some f => filterRaw f (slice cx.src t)), false)
   else if k == IK.softBreak then
-    ((if cx.soft == 2 then hardLineBreak
+    ((if cx.soft == 2 then openTag cx (str "br") ++ [LF]
       else if cx.soft == 1 then [SP]
       else if spanLen t > 0 then slice cx.src t else [LF]), false)
-  else if k == IK.hardBreak then (hardLineBreak, false)
+  else if k == IK.hardBreak then (openTag cx (str "br") ++ [LF], false)
   else if k == IK.emphasis then (openTag cx (str "em"), true)
   else if k == IK.strong then (openTag cx (str "strong"), true)
   else if k == IK.codeSpan then (openTag cx (str "code"), true)
